@@ -260,7 +260,19 @@ def check_stage_equiv(prog: Program, stages=STAGES, validate=2) -> list[Result]:
     try:
         ref_paths, ref_it = symexec(ref_plan, env)
     except Unsupported as e:
-        return [Result(prog.name, SKIPPED, "", f"unsupported in reference plan: {e}", extra={"unsupported": str(e)})]
+        # outside the model: the only obligation left is the crash oracle - no stage may raise on concrete tables where the
+        # unoptimised plan computes (concrete by-product, no solver; equality of values is not judged)
+        out = []
+        tables = conc.tables_from_model(env, None, 1)
+        for stage in stages:
+            try:
+                differs, msg = replay_stage(prog, tables, stage)
+            except Exception:
+                continue
+            if differs is True and " raises " in msg:
+                out.append(Result(f"{prog.name}|{stage}", VIOLATION, _sig(prog, stage), f"outside the model ({e}); crash oracle: {msg}",
+                                  {"engine": "P", "family": prog.family, "program": prog.name, "stage": stage, "kind": "crash-oracle"}))
+        return out or [Result(prog.name, SKIPPED, "", f"unsupported in reference plan: {e}", extra={"unsupported": str(e)})]
     except (StructuralError, GraphError) as e:
         return [Result(prog.name, SKIPPED, "", f"reference plan fails structurally: {e}")]
     except Exception as e:
@@ -532,6 +544,9 @@ def check_two_plans(prog: Program, label, mk_a, mk_b, per_partition=False, extra
         b_plan = mk_b(q.expr)
     except Exception as e:
         differs, msg = replay(conc.tables_from_model(env, None, 1))
+        if differs is None:
+            # the reference plan fails on the real code as well: not a difference between the two plans
+            return [Result(name, SKIPPED, "", f"{label}: both plans fail ({type(e).__name__}); replay: {msg}")]
         return [Result(name, VIOLATION if differs else HARNESS_ERROR, sig, f"{label}: planning fails: {type(e).__name__}: {str(e)[:300]}; replay: {msg}",
                        {"engine": "P", "family": prog.family, "program": prog.name, "stage": label})]
     if extra_static is not None:
@@ -835,9 +850,25 @@ def check_schema(prog: Program) -> list[Result]:
             out.append(Result(name, HARNESS_ERROR, sig, f"schema mismatch in the model ({bad[1]}) could not be replayed: {type(e).__name__}: {e}"))
             continue
         if real_bad:
-            out.append(Result(name, VIOLATION, sig, f"partition {bad[0]}: {bad[1]}; real execution: {real_bad[0]}", {"engine": "P", "program": prog.name, "stage": label}))
+            r = Result(name, VIOLATION, sig, f"partition {bad[0]}: {bad[1]}; real execution: {real_bad[0]}", {"engine": "P", "program": prog.name, "stage": label})
+            r.extra["mismatch_node"] = node._name
+            out.append(r)
         else:
             out.append(Result(name, HARNESS_ERROR, sig, f"model partition {bad[0]} has {bad[1]} but real execution matches its meta: label model error"))
+    # call-site signatures for label mismatches: the culprit is the deepest logical node whose partitions disagree with its own meta
+    # (everything above it inherits the mismatch); the signature names its class, the kinds of its operands and the kind of mismatch
+    bad_nodes = {r.extra["mismatch_node"] for r in out if r.status == VIOLATION and "mismatch_node" in r.extra}
+    if bad_nodes:
+        by_name = {n._name: n for n in q.expr.walk()}
+        culprits = [by_name[n] for n in bad_nodes if n in by_name and not any(d._name in bad_nodes for d in by_name[n].dependencies())]
+        culprit = culprits[0] if culprits else q.expr
+        kinds = ",".join({0: "scalar", 1: "series", 2: "frame"}.get(getattr(d, "ndim", None), "?") + ("-1part" if d.npartitions == 1 and culprit.npartitions > 1 else "") for d in culprit.dependencies())
+        for r in out:
+            if r.status == VIOLATION and "mismatch_node" in r.extra:
+                from dask_expr._expr import Binop
+
+                cls = "Binop" if isinstance(culprit, Binop) else type(culprit).__name__
+                r.signature = f"schema|{cls}({kinds})|partition-labels"
     return out
 
 
@@ -1114,7 +1145,7 @@ def check_divisions(prog: Program) -> list[Result]:
             continue
         # static structure of every node
         static = None
-        for node in pl.walk():
+        for node in list(q.expr.walk()) + list(pl.walk()):  # the logical query (what the user holds) and the plan
             try:
                 d = node.divisions
             except Exception:
